@@ -5,7 +5,7 @@ use crate::c14::holder;
 use crate::c15::honest;
 use crate::common::*;
 use mccore::{int_leaf_paths, json_get, par_for, path_class, subsets, O};
-use rug::Integer;
+use rug::{Complete, Integer};
 use serde_json::{json, Value};
 use zkryptium::cl03::keys::{CL03PublicKey, CL03SecretKey};
 use zkryptium::schemes::algorithms::{Scheme, CL03};
@@ -69,7 +69,7 @@ where CL03<CS>: Scheme<PubKey = CL03PublicKey, PrivKey = CL03SecretKey>, CS::Has
     let maxn = if env.thorough() { 3 } else { 2 };
     let w: World<CS> = World::generate(maxn);
     let items = collect::<CS>(env, &w, maxn, "c17");
-    env.ctx.set_rule("every honest issuance proof (all non-empty hidden subsets, + one with trusted party) and signature proof (all subsets), n <= 2 (thorough 3). In the JSON view: (i) every object shaped {value, randomness} and (ii) every ordered pair of integer leaves (quick: sibling pairs under one parent; thorough: all ordered pairs) is tested as an opening (V, R): for every public base pair (g, h, N) in {(a_i, b, N)} u {(g_i, h_c, N)} u {(g_i', h', N') of the trusted key} and every secret x the prover holds (hidden m_i, e, s, v, r): V != g^x * h^R; V * g^(-R) != v; the full-vector opening V = prod g_i^{m_i} * h^R with revealed attributes known; no leaf equals x, c*x or (1+c)*x for a hidden attribute x and a challenge c the recipient has or can recompute; and the dictionary attack with candidates {true value, true value + 1}: the test must not single out the true candidate; sibling responses must not differ by challenge * (m_i - m_j). Hidden-position lists are also given in non-ascending order. State = (proof, leaf pair); non-trivial = at least one modular recomputation against a real serialized proof.");
+    env.ctx.set_rule("every honest issuance proof (all non-empty hidden subsets, + one with trusted party) and signature proof (all subsets), n <= 2 (thorough 3). In the JSON view: (i) every object shaped {value, randomness} and (ii) every ordered pair of integer leaves (quick: sibling pairs under one parent; thorough: all ordered pairs) is tested as an opening (V, R): for every public base pair (g, h, N) in {(a_i, b, N)} u {(g_i, h_c, N)} u {(g_i', h', N') of the trusted key} and every secret x the prover holds (hidden m_i, e, s, v, r): V != g^x * h^R; V * g^(-R) != v; the full-vector opening V = prod g_i^{m_i} * h^R with revealed attributes known; no leaf equals x, c*x or (1+c)*x for a hidden attribute x and a challenge c the recipient has or can recompute; and the dictionary attack with candidates {true value, true value + 1}: the test must not single out the true candidate; sibling responses must not differ by challenge * (m_i - m_j); inside every embedded range proof no product / quotient of two of the commitments E, E', E_a_1, E_a_2, E_b_1, E_b_2 equals g^y for y in {x_a1^2, x_a2, x_b1^2, x_b2, x_a1, x_b1, 2^T x - aa, bb - 2^T x} or a sum / difference of two of them (true secret x versus x + 1). Hidden-position lists are also given in non-ascending order. State = (proof, leaf pair); non-trivial = at least one modular recomputation against a real serialized proof.");
     par_for(&items, |_, it| {
         if !env.want(&it.id) || env.ctx.out_of_time() { return; }
         let n = it.n;
@@ -142,6 +142,53 @@ where CL03<CS>: Scheme<PubKey = CL03PublicKey, PrivKey = CL03SecretKey>, CS::Has
                 } }
             } }
         } }
+        // commitments inside an embedded range proof multiplied / divided with each other: if the h-parts cancel, the product is
+        // g^y for a y that follows from the committed secret by public arithmetic (Boudot's decomposition of 2^T x - aa and
+        // bb - 2^T x into a square plus a rest): a guessed secret is then confirmed by one exponentiation
+        {
+            let root = &it.proof["CL03"];
+            let secret = |name: &str| it.secrets.iter().find(|s| s.0 == name).map(|s| s.1.clone());
+            let mut rps: Vec<(String, Vec<String>, Integer, Integer, Option<Integer>)> = Vec::new();
+            if root["range_proof_e"].is_object() { rps.push(("range_proof_e".into(), vec!["CL03".into(), "range_proof_e".into()], pow2(CS::le - 1) + 1u32, pow2(CS::le) - 1u32, secret("signature e"))); }
+            if root["range_proof_r"].is_object() { rps.push(("range_proof_r".into(), vec!["CL03".into(), "range_proof_r".into()], Integer::from(0), pow2(CS::ln) - 1u32, secret("commitment randomness r"))); }
+            for key in ["range_proofs_commited_mi", "range_proofs_mi"] { if let Some(arr) = root[key].as_array() { for k in 0..arr.len() { let i = it.hidden.get(k).copied().unwrap_or(0); rps.push((format!("{}[{}]", key, k), vec!["CL03".into(), key.into(), k.to_string()], Integer::from(0), pow2(CS::lm) - 1u32, Some(it.m[i].clone()))); } } }
+            let derived = |x: &Integer, a: &Integer, b: &Integer| -> Option<Vec<(String, Integer)>> {
+                let big_t = 2 * (128 + 40 + 1) + (b - a).complete().significant_bits();
+                let sq = Integer::from((b - a).complete().sqrt_ref());
+                let aa = pow2(big_t) * a - pow2(40 + 128 + big_t / 2 + 1) * &sq;
+                let bb = pow2(big_t) * b + pow2(40 + 128 + big_t / 2 + 1) * &sq;
+                let xa = pow2(big_t) * x - &aa; let xb = bb - pow2(big_t) * x;
+                if xa < 0 || xb < 0 { return None; }
+                let (xa1, xb1) = (Integer::from(xa.sqrt_ref()), Integer::from(xb.sqrt_ref()));
+                let (xa2, xb2) = (xa.clone() - xa1.clone() * &xa1, xb.clone() - xb1.clone() * &xb1);
+                Some(vec![("x_a1^2".into(), xa1.clone() * &xa1), ("x_a2".into(), xa2), ("x_b1^2".into(), xb1.clone() * &xb1), ("x_b2".into(), xb2), ("x_a1".into(), xa1), ("x_b1".into(), xb1), ("2^T x - aa".into(), xa), ("bb - 2^T x".into(), xb)])
+            };
+            for (name, path, lo, hi, sec) in &rps {
+                let x = match sec { Some(x) => x, None => continue };
+                let (dt, da) = match (derived(x, lo, hi), derived(&(x.clone() + 1u32), lo, hi)) { (Some(a), Some(b)) => (a, b), _ => continue };
+                // exponent candidates: singles and pairwise sums / differences
+                let mut ys: Vec<(String, Integer, Integer)> = dt.iter().zip(da.iter()).map(|(t, a)| (t.0.clone(), t.1.clone(), a.1.clone())).collect();
+                for i in 0..dt.len() { for j in (i + 1)..dt.len() { ys.push((format!("{} + {}", dt[i].0, dt[j].0), dt[i].1.clone() + &dt[j].1, da[i].1.clone() + &da[j].1)); ys.push((format!("{} - {}", dt[i].0, dt[j].0), dt[i].1.clone() - &dt[j].1, da[i].1.clone() - &da[j].1)); } }
+                let sub: Vec<(Vec<String>, Integer)> = leaves.iter().filter(|p| p.len() > path.len() && p[..path.len()] == path[..] && matches!(p.last().unwrap().as_str(), "E_a_1" | "E_a_2" | "E_b_1" | "E_b_2" | "E" | "E_prime")).map(|p| (p.clone(), val(p))).collect();
+                env.ctx.state(&[it.id.as_bytes(), name.as_bytes(), b"products"]);
+                for (bn, g, _h, nn) in &bases {
+                    // g^y for every candidate exponent (true secret / secret + 1)
+                    let gy: Vec<(Integer, Integer)> = ys.iter().map(|(_, t, a)| (modpow(g, t, nn), modpow(g, a, nn))).collect();
+                    for i in 0..sub.len() { for j in i..sub.len() { for op in ["*", "/"] {
+                        if i == j && op == "/" { continue; }
+                        let v2 = if i == j { Integer::from(1) } else if op == "*" { sub[j].1.clone() } else { match sub[j].1.clone().invert(nn) { Ok(x) => x, Err(_) => continue } };
+                        let p_ = (sub[i].1.clone() * v2) % nn;
+                        env.ctx.step();
+                        for (k, (gt, ga)) in gy.iter().enumerate() {
+                            if p_ == *gt && p_ != *ga {
+                                env.ctx.violation(&format!("C17:range-proof-product-confirms-guess:{}", name.split('[').next().unwrap_or(name)), &format!("{}: {}{} = g^({}) with base {}: the blinding cancels and a guessed value of the committed secret is confirmed by one exponentiation", name, sub[i].0.last().unwrap(), if i == j { String::new() } else { format!(" {} {}", op, sub[j].0.last().unwrap()) }, ys[k].0, bn), env.case(&it.id, json!({"base": det0, "range_proof": name, "fields": [sub[i].0.join("/"), sub[j].0.join("/")], "op": op, "exponent": ys[k].0})));
+                            }
+                        }
+                    } } }
+                }
+                env.ctx.class("range proof products"); env.ctx.trace();
+            }
+        }
         // the mere presence of a field named `randomness` next to a commitment value is recorded (not a verdict by itself)
         env.ctx.add_extra("randomness_leaves_seen", leaves.iter().filter(|p| p.last().map(|x| x == "randomness").unwrap_or(false)).count() as u64);
         if it.n == 2 && it.hidden == vec![1] { env.ctx.sample(json!({"proof": it.id, "leaves": leaves.len(), "pairs_tested": pairs.len(), "base_pairs": bases.len()})); }
